@@ -117,6 +117,16 @@ func (c *Ctx) Check(cond bool, rule, construct, okDetail, badDetail string, at s
 	return cond
 }
 
+// CheckAtPos records OK or Bad at a textual position.
+func (c *Ctx) CheckAtPos(cond bool, rule, construct, okDetail, badDetail, pos string) bool {
+	if cond {
+		c.OKAt(rule, construct, okDetail, pos)
+	} else {
+		c.BadAt(rule, construct, badDetail, pos, nil)
+	}
+	return cond
+}
+
 // Floor demands that a rule matched at least min instances; otherwise the rule
 // would pass vacuously, which is reported as undecided.
 func (c *Ctx) Floor(rule, what string, got, min int) bool {
